@@ -190,8 +190,9 @@ class DFXPReader(BaseReader):
         microseconds += int(clock_time_match.group('seconds')) * \
                         MICROSECONDS_PER_UNIT["seconds"]
         if clock_time_match.group('sub_frames'):
+            # fraction of a second, of any length: keep microsecond precision
             microseconds += int(clock_time_match.group('sub_frames').ljust(
-                3, '0')) * MICROSECONDS_PER_UNIT["milliseconds"]
+                6, '0')[:6])
         elif clock_time_match.group('frames'):
             microseconds += int(clock_time_match.group('frames')) / 30 * \
                             MICROSECONDS_PER_UNIT["seconds"]
